@@ -161,7 +161,10 @@ def dbLine (st : DBRun) (lineNo : Nat) (line : String) : Except String (DBRun ×
       -- unparsable observations are observations too
       let ents? := if entS.startsWith "MALFORMED" then none else parseEntries entS
       let post? := (parseState diskS).map fun sm => ({ secrets := sm, gen := gen, disk := sm } : KV)
-      let out0 : List String :=
+      let outSync : List String :=
+        if get "synced" == "0" then
+          [s!"PROPFAIL C06 synced_before_return {tag} op={get "op"} n={get "n"} res={get "res"} the call returned before the Sync of its record had completed"] else []
+      let out0 : List String := outSync ++
         (if ents?.isNone then [s!"PROPFAIL C06 record_wellformed {tag} ent={entS}"] else []) ++
         (if post?.isNone then [s!"PROPFAIL C03 disk_readable {tag} disk={diskS}", s!"PROPFAIL C04 disk_readable {tag} disk={diskS}"] else []) ++
         (if (get "res").startsWith "PANIC" then [s!"PROPFAIL C02 no_panic {tag} res={get "res"}"] else [])
@@ -244,6 +247,10 @@ def aclLine (dotNL : Bool) (st : AclRun) (lineNo : Nat) (line : String) : Except
       let key := s!"m:{if p.toList.contains '*' then "star" else "lit"}:{bit}:{if n.toList.contains '\n' then "nl" else "nonl"}:{min p.length 6}:{min n.length 8}"
       .ok ({ st with cases := st.cases + 1, fails := st.fails + o1.length, diverges := st.diverges + o2.length, cover := bump st.cover key }, o1 ++ o2)
     | _, _ => .error s!"line {lineNo}: bad hex"
+  | ["concmatch", _, mism] =>
+    if mism == "mismatches=0" then .ok ({ st with cases := st.cases + 1, cover := bump st.cover "concmatch" }, []) else
+      .ok ({ st with cases := st.cases + 1, fails := st.fails + 1 },
+           [s!"PROPFAIL C07 match_iff_glob line={lineNo} {mism}: patterns evaluated from several goroutines at once gave answers they do not give one at a time"])
   | ["allow", rules, ah, nh, bit] =>
     match parseRules rules, unhexStr ah, unhexStr nh with
     | some rs, some a, some n =>
